@@ -74,8 +74,52 @@ Theorem C12_tables_live : forall hm h s, NoDup (accepted h) ->
 Proof. exact tables_live. Qed.
 Print Assumptions C12_tables_live.
 
+(* liveness relative to the stimuli: the very step that processes a terminal stimulus for a live socket s —
+   recv() error, EOF or close(s) with nothing buffered, a send() that fails fatally, the poller's hang-up, or
+   the flush of the last buffered payload when a close was deferred (Model.terminal) — fires disconnect(s)
+   and leaves s in no table.  With C12_disconnect_once: exactly one disconnect, and it comes at that step. *)
+Theorem C12_disconnect_follows : forall hm h s i, NoDup (accepted h) ->
+  In s (clients (fst (run hm h))) -> terminal s (fst (run hm h)) i = true ->
+  In (OEv (EDisconnect s)) (snd (step hm (fst (run hm h)) i)) /\ no_state s (fst (step hm (fst (run hm h)) i)).
+Proof. exact disconnect_follows. Qed.
+Print Assumptions C12_disconnect_follows.
+
+(* EOF or close(s) while output is buffered: s is queued in _closeq with its buffer intact (then the flush of the
+   last payload, or any error, is terminal) *)
+Theorem C12_deferred_close : forall hm h s i, NoDup (accepted h) ->
+  In s (clients (fst (run hm h))) -> deferring s (fst (run hm h)) i = true ->
+  In s (closeq (fst (step hm (fst (run hm h)) i))) /\ In s (clients (fst (step hm (fst (run hm h)) i))) /\
+  bget s (bufs (fst (step hm (fst (run hm h)) i))) = bget s (bufs (fst (run hm h))).
+Proof. exact deferred_close. Qed.
+Print Assumptions C12_deferred_close.
+
+(* many connections at once: whatever happens on other sockets (any number of them, any stimuli, from any
+   state x) leaves the table rows of s, the events observers see for s and the kernel calls made on s unchanged *)
+Theorem C12_isolation : forall hm s h x acc, Forall (fun i => touches s i = false) h ->
+  row_of s (fst (run_from hm x acc h)) = row_of s x /\
+  proj s (snd (run_from hm x acc h)) = proj s acc /\
+  calls s (snd (run_from hm x acc h)) = calls s acc.
+Proof. exact isolation. Qed.
+Print Assumptions C12_isolation.
+
+(* close() of the whole server, in any reachable state: the listening socket is down afterwards (its disconnect is
+   reported iff it was still open), every client with nothing buffered gets its disconnect in this step and leaves
+   no trace, every other client is queued for a deferred close, no client appears, closed() is fired *)
+Theorem C12_close_all : forall hm h, NoDup (accepted h) ->
+  let x := fst (run hm h) in
+  let r := step hm x SCloseAll in
+  lis (fst r) = false /\
+  (forall s, In s (clients x) -> bget s (bufs x) = [] ->
+             In (OEv (EDisconnect s)) (snd r) /\ no_state s (fst r)) /\
+  (forall s, In s (clients x) -> bget s (bufs x) <> [] -> In s (clients (fst r)) /\ In s (closeq (fst r))) /\
+  (forall s, In s (clients (fst r)) -> In s (clients x)) /\
+  In (OSrv VClosed) (snd r) /\ (In (OSrv VListenDown) (snd r) <-> lis x = true).
+Proof. exact close_all_spec. Qed.
+Print Assumptions C12_close_all.
+
 (* clients: #connected = #disconnected (+1 while connected), for every history of connect results, recv/send
-   outcomes, poller hang-ups, writes and closes in which connect is not requested while connected *)
+   outcomes, poller hang-ups, writes and closes (also after the disconnect) in which connect is not requested
+   while connected *)
 Theorem C12_client_balance_partial : forall h, connect_when_down cinit h = true ->
   count is_kconn (snd (crun h)) = count is_kdisc (snd (crun h)) + b2n (conn (fst (crun h))).
 Proof. exact client_balance. Qed.
@@ -86,23 +130,56 @@ Theorem C12_client_balance_refuted :
 Proof. exact client_balance_refuted. Qed.
 Print Assumptions C12_client_balance_refuted.
 
+(* after `disconnected` (code after fixes/C12_client_late_write.patch), for EVERY history: while the socket object is
+   closed the client is not connected, buffers nothing and has no deferred close ... *)
+Theorem C12_client_closed_clean : forall h, sopen (fst (crun h)) = false -> cdown (fst (crun h)).
+Proof. exact client_closed_clean. Qed.
+Print Assumptions C12_client_closed_clean.
+
+(* ... the step that reports `disconnected` is the one that closes the socket and clears everything ... *)
+Theorem C12_client_disconnected_closes : forall x i, In KDisconnected (snd (cstep x i)) ->
+  sopen (fst (cstep x i)) = false /\ cdown (fst (cstep x i)).
+Proof. exact cstep_disc_closes. Qed.
+Print Assumptions C12_client_disconnected_closes.
+
+(* ... and every late request (write, close, stale poller event) changes nothing, sends nothing, announces nothing *)
+Theorem C12_client_late_requests_inert : forall h i, sopen (fst (crun h)) = false ->
+  match i with KConnect _ _ => False | _ => True end ->
+  fst (cstep (fst (crun h)) i) = fst (crun h) /\
+  (forall e, In e (snd (cstep (fst (crun h)) i)) -> is_ksend e = false /\ is_kconn e = false /\ is_kdisc e = false).
+Proof. exact client_late_requests_inert. Qed.
+Print Assumptions C12_client_late_requests_inert.
+
 (* non-vacuity: a history satisfying the hypotheses that goes through accept, reads, a partial send, a
    deferred close, a reset while writing, and late write / close / poller events to the dead socket *)
 Definition ex_h : list stim :=
   [SAccept 0; SAccept 1; SRead 0 (RData [104; 105]%N); SWrite 0 20000%N; SWritable 0 (WAcc 9088%N);
    SClose 0; SRead 1 (RData [1]%N); SRead 0 RErr; SWritable 0 WTrans; SWrite 0 5%N; SClose 0; SDisc 0;
-   SRead 0 (RData [9]%N); SAcceptGone 2; SWrite 2 1%N].
+   SRead 0 (RData [9]%N); SAcceptGone 2; SWrite 2 1%N; SAccept 3; SWrite 3 7%N; SCloseAll; SCloseAll].
 Example C12_ex_hyps : NoDup (accepted ex_h) /\ ~ In 0 (gone ex_h).
 Proof. split. repeat constructor; simpl; intuition discriminate. simpl. intuition discriminate. Qed.
 Example C12_ex_view :
   proj 0 (snd (run true ex_h)) = [EConnect 0; ERead 0 [104; 105]%N; EError 0; EDisconnect 0]
-  /\ phase_of 0 (snd (run true ex_h)) = PDead /\ phase_of 1 (snd (run true ex_h)) = PLive
-  /\ fst (run true ex_h) = mk [1] [] [] [1] [] [1] [1].
-Proof. vm_compute. auto. Qed.
+  /\ phase_of 0 (snd (run true ex_h)) = PDead
+  /\ phase_of 1 (snd (run true ex_h)) = PDead
+  /\ fst (run true ex_h) = mk [3] [(3, [7%N])] [3] [3] [3] [3] [3] false
+  /\ count (fun o => match o with OSrv VListenDown => true | _ => false end) (snd (run true ex_h)) = 1
+  /\ count (fun o => match o with OSrv VClosed => true | _ => false end) (snd (run true ex_h)) = 2.
+Proof. vm_compute. repeat split; auto. Qed.
+Definition ex_c : list cstim :=
+  [KConnect true false; KWrite 10%N; KClose; KWritable (WAcc 4%N) false; KRead RErr;
+   KWrite 5%N; KClose; KWritable WTrans false; KRead RErr;          (* late requests: inert *)
+   KConnect false false; KConnect true true; KRead REof; KWrite 3%N].
+(* hypotheses of C12_disconnect_follows / C12_deferred_close / C12_isolation are satisfiable *)
+Example C12_ex_terminal :
+  let x := fst (run true [SAccept 0; SAccept 1; SWrite 1 9%N]) in
+  terminal 0 x (SRead 0 REof) = true /\ terminal 1 x (SWritable 1 WFatal) = true
+  /\ deferring 1 x (SClose 1) = true
+  /\ terminal 1 (fst (step true x (SClose 1))) (SWritable 1 (WAcc 9%N)) = true
+  /\ Forall (fun i => touches 0 i = false) [SRead 1 REof; SWrite 1 3%N; SAccept 2; SClose 2; SSnap].
+Proof. vm_compute. repeat split; auto. repeat constructor. Qed.
 Example C12_ex_client :
-  connect_when_down cinit [KConnect true; KWrite 10%N; KClose; KWritable (WAcc 4%N) false; KRead RErr;
-                           KConnect false; KConnect true; KRead REof] = true
-  /\ snd (crun [KConnect true; KWrite 10%N; KClose; KWritable (WAcc 4%N) false; KRead RErr;
-                KConnect false; KConnect true; KRead REof])
-     = [KConnected; KErr; KDisconnected; KConnected; KDisconnected].
-Proof. vm_compute. auto. Qed.
+  connect_when_down cinit ex_c = true
+  /\ snd (crun ex_c) = [KConnected; KSend 10%N; KErr; KDisconnected; KErr; KConnected; KDisconnected]
+  /\ fst (crun ex_c) = cmk false [] false false.
+Proof. vm_compute. repeat split; auto. Qed.
